@@ -18,10 +18,13 @@ Definition ob19 (n : nat) (h : option bool) (r : bool) (bad : list (nat * check_
 Definition bd19 (i : nat) (r : check_result) : nat * check_result := (i, r).
 
 Definition propfail_c19 (ids : list string) (c : c19_case) : bool := negb (P19 ids (c19_obs c)).
+Definition cr_eqb_reason19 (a b : check_result) : bool :=
+  Bool.eqb (cr_allowed a) (cr_allowed b) && String.eqb (cr_reason a) (cr_reason b).
 Definition mismatch_c19 (fns : list string) (c : c19_case) : bool :=
   existsb (fun o : option bool * bool * list check_result =>
              let '(h, r, res) := o in
-             negb (list_eqb cr_eqb
+             (* verdict and reason; the detail texts are C13's subject *)
+             negb (list_eqb cr_eqb_reason19
                      (map (fun fn => run_check shipped_lists r fn (set_hostUsers (c19_pod c) h)) fns) res))
           (c19_obs c).
 Definition run_c19 (ids fns : list string) (cs : list c19_case) : list N * list N :=
